@@ -1,4 +1,5 @@
 """C05 — loop brackets mean repetition: streams."""
+import re
 from ..core import Stream, hx, unhx
 from .. import mml
 
@@ -55,7 +56,7 @@ def streams(tier, rng, P, only=None, cases=None):
         for i in range(n):
             prog = gen_loopy(rng, rng.choice([1, 2, 3, 4, 5]))
             src = mml.pr(prog)
-            if rng.random() < 0.3: src = src.replace("[2 ", "[ ")
+            if rng.random() < 0.3: src = re.sub(r"\[2 (?![(=0-9])", "[ ", src)    # omitted count = 2 ("[ (" would read the parenthesis as the count)
             un = mml.pr(unroll_cmds(prog))
             wrap = rng.random()
             if wrap < 0.15:       # inside a macro body
